@@ -30,6 +30,22 @@ FORM_FLOOR_OF_PRODUCT = sym.canon(_b('+', MEM, _b('/', _b('*', II, SIZE), NN))) 
 FORM_PRODUCT_OF_FLOOR = sym.canon(_b('+', MEM, _b('*', II, _b('/', SIZE, NN))))      # base + i*(size/N)
 
 
+def norm_end(c):
+    """one spelling for the end of region x: block_end(x) is block_start(x + 1), whether or not the accessor exists"""
+    c = re.sub(r'this\.block_start\(\(1 \+ ([^()]+|[^()]*\([^()]*\)[^()]*)\)\)', r'this.block_end(\1)', c)
+    c = re.sub(r'this\.block_start\(\(([^()]+|[^()]*\([^()]*\)[^()]*) \+ 1\)\)', r'this.block_end(\1)', c)
+    return c
+
+
+def _is_region_end(atoms):
+    """the end of the current region: block_end(cur_) / block_start(cur_ + 1), as a call or with the accessors seen through"""
+    if {norm_end(a) for a in atoms} == {'this.block_end(this.cur_)'}:
+        return True
+    nxt = sym.canon(_b('+', _r('this.cur_'), {'k': 'lit', 'v': 1}))
+    forms = {sym.canon(_b('/', _b('*', _r(nxt), SIZE), NN)), sym.canon(_b('*', _r(nxt), _b('/', SIZE, NN)))}
+    return 'this.block_.memory' in atoms and len(atoms) == 2 and bool((atoms - {'this.block_.memory'}) & forms)
+
+
 def by_inst(db):
     out = {}
     for f in db.find(cls_t=CT):
@@ -167,19 +183,20 @@ def check_instance(run, db, cls, fns):
     inst0 = '%s [%s]' % (strip_ns(cls), db.config)
     bs = by.get('block_start', [None])[0]
     be = by.get('block_end', [None])[0]
-    if bs is None or be is None:
-        run.broke('block_start/block_end of %s not instantiated' % strip_ns(cls))
+    if bs is None:
+        run.broke('block_start of %s not instantiated' % strip_ns(cls))
         return
     bst = block_start_term(bs)
     # ---- tile
     ok_form = bst == FORM_FLOOR_OF_PRODUCT
     alt_form = bst == FORM_PRODUCT_OF_FLOOR
-    bet = [s for s in fwd.summarize(be, roles={0: 'i'}) if s.end == 'return']
-    be_ok = len(bet) == 1 and bet[0].ret in ('this.block_start((1 + $i))', 'this.block_start(($i + 1))')
+    # without a block_end accessor its users spell the end of region i as block_start(i + 1) themselves: R-BOUND / R-COUNTER decide them
+    bet = [s for s in fwd.summarize(be, roles={0: 'i'}) if s.end == 'return'] if be is not None else []
+    be_ok = be is None or (len(bet) == 1 and norm_end(bet[0].ret or '') == 'this.block_end($i)')
     if (ok_form or alt_form) and be_ok:
-        run.ok('R-TERM.tile', inst0, bs.loc, 'block_start(i) = %s ; block_end(i) = block_start(i + 1)' % bst)
+        run.ok('R-TERM.tile', inst0, bs.loc, 'block_start(i) = %s ; %s' % (bst, 'block_end(i) = block_start(i + 1)' if be is not None else 'no block_end accessor: the end of region i is written block_start(i + 1) at its uses'))
     elif not be_ok:
-        run.violation('R-TERM.tile', inst0, be.loc, 'block_end(i) is %s, not block_start(i + 1): neighbouring regions overlap or leave a gap' % (bet[0].ret if bet else '?'),
+        run.violation('R-TERM.tile', inst0, (be or bs).loc, 'block_end(i) is %s, not block_start(i + 1): neighbouring regions overlap or leave a gap' % (bet[0].ret if bet else '?'),
                       site={'function': CT + '::block_end', 'role': 'regions tile the block'})
     else:
         run.broke('block_start has an unrecognised form: %s' % bst)
@@ -270,14 +287,15 @@ def check_instance(run, db, cls, fns):
         good = True
         for s in S:
             al = [c for c in s.calls if c[1].get('short') == 'allocate']
-            if len(al) != 1 or not al[0][0].startswith('this.stacks_[this.cur_].allocate(this.block_end(this.cur_),'):
+            if len(al) != 1 or not norm_end(al[0][0]).startswith('this.stacks_[this.cur_].allocate(this.block_end(this.cur_),'):
                 good = False
         if good:
             run.ok('R-BOUND', inst, f.loc, 'stacks_[cur_].allocate(block_end(cur_), ...)')
         else:
             run.violation('R-BOUND', inst, f.loc, 'try_allocate does not bound stacks_[cur_] by block_end(cur_)',
                           site={'function': CT + '::try_allocate', 'role': 'same region'})
-    c01.check_bound(run, db, by.get('allocate', []), rule='R-BOUND')
+    c01.check_bound(run, db, by.get('allocate', []), rule='R-BOUND',
+                    end_pred=lambda rest: _is_region_end({a for a in rest if a}))
 
 
 def run(run):
@@ -285,6 +303,7 @@ def run(run):
     run.rule('R-TERM.tile', 'block_end(i) == block_start(i+1); block_start = base + floor(i*size/N)', floor=4)
     run.rule('R-ITER', 'next_iteration: cyclic successor, reset exactly that region; nobody else resets', floor=4)
     run.rule('R-BOUND', 'allocate/try_allocate use the end of the same region', floor=8)
+    run.rule('R-ITER.move', 'the iteration index travels with the block and the region stacks through move construction and move assignment', floor=2)
     run.explanation = ('Region boundaries are compared as terms symbolic in i and N; the instantiation matrix (N = 1..5, three block sources) only guards '
                        'against N-dependent specialisations. "Valid for exactly N iterations" over histories is not decided.')
     n = 0
@@ -295,6 +314,14 @@ def run(run):
                 continue
             n += 1
             check_instance(run, db, cls, fns)
+        # the current iteration belongs to the block: an allocator that takes over another one's regions but keeps its own index resets
+        # the newest region at the next iteration (coverage / source-reset rules of C12, restricted to this class)
+        from rules import c12, c05
+        rr = c05._Renamed(run, 'R-ITER.move')
+        for cls, ops in sorted(c12.classes_with_moves(db).items()):
+            if cls in db.classes and cls_template(cls) == CT:
+                c12.check_coverage(rr, db, cls, ops)
+                c12.check_emptiness(rr, db, cls, ops)
     run.count('instantiations', n)
     if n < 4:
         run.broke('iteration_allocator instantiations with constructors: %d' % n)
